@@ -317,8 +317,24 @@ E("EQ-flip-id-check", KS,
 """)
 
 
+def seeded():
+    """every stored seeded change (seeded/<id>/: patch.diff + meta.json) is replayed as a break mutant: the check of the
+    property it breaks must report a violation"""
+    import glob, json, os
+    out = []
+    root = os.path.join(os.path.dirname(os.path.dirname(os.path.abspath(__file__))), "seeded")
+    for d in sorted(glob.glob(os.path.join(root, "*"))):
+        mp, pp = os.path.join(d, "meta.json"), os.path.join(d, "patch.diff")
+        if not (os.path.exists(mp) and os.path.exists(pp)):
+            continue
+        meta = json.load(open(mp))
+        prop = meta.get("breaks_property") or meta.get("property")
+        out.append({"id": "SEED-" + os.path.basename(d), "kind": "break", "props": [prop], "expect": prop + ":", "edits": [], "patch": pp})
+    return out
+
+
 def all_mutants():
-    return BREAK + EQUIV
+    return BREAK + seeded() + EQUIV
 
 # ======================================================================== C02
 B("C02-apply-before-append", "C02", "C02:R-C02.1:keyspace::Keyspace::insert:append-before-apply", KS,
